@@ -368,6 +368,18 @@ def asFloat (exact : Bool) : Val → Option Flt
   | _ => none
 
 
+def Val.isArr : Val → Bool | .aref _ => true | _ => false
+def Val.isBool : Val → Bool | .bool _ => true | _ => false
+def Val.isMap : Val → Bool | .mref _ => true | _ => false
+def Val.isStr : Val → Bool | .str _ => true | _ => false
+def Val.isNum : Val → Bool | .int _ | .flt _ => true | _ => false
+def Val.isNull : Val → Bool | .null => true | _ => false
+
+/-- Go's `s, _ := v.(string)`: the string, or "" for any other kind -/
+def Val.strOrEmpty : Val → Bytes
+  | .str s => s
+  | _ => []
+
 inductive CmpOp where
   | lt | lte | gt | gte
   deriving DecidableEq
